@@ -188,6 +188,32 @@ func ruleErrFlow(c *Ctx, r *Reporter) {
 				}
 			}
 		}
+		// the retry is queued with the revision the object has after ALL of this iteration's
+		// writes to it: Table.Revision is read after the last write (it dominates no later write)
+		goodRev := false
+		for _, add := range callsIn(c, cs, "reconciler.(retries).Add") {
+			if len(add.Call.Args) < 3 {
+				continue
+			}
+			rc, ok := add.Call.Args[2].(*ssa.Call)
+			if !ok || !rc.Call.IsInvoke() || rc.Call.Method.Name() != "Revision" {
+				continue
+			}
+			goodRev = true
+			for _, ia := range allInstrs(cs) {
+				w, ok := ia.In.(*ssa.Call)
+				if !ok || !w.Call.IsInvoke() {
+					continue
+				}
+				switch w.Call.Method.Name() {
+				case "Insert", "InsertWatch", "Modify", "CompareAndSwap", "Delete", "CompareAndDelete", "DeleteAll":
+					if instrDominates(rc, w) {
+						goodRev = false
+					}
+				}
+			}
+		}
+		r.checkP([]string{"C14", "C15"}, goodRev, "reconciler.(incremental).commitStatus|retry carries the revision after the status write", c.posStr(cs.Pos()), "retries.Add gets Table.Revision(wtxn) read after the last write of the iteration", "the revision stored with the retry is read before a later write to the object in the same iteration (the same-pending-id fallback Insert): the retry's status commit compares against a stale revision, its result is dropped and the object is never retried again")
 		r.check(good, "reconciler.(incremental).commitStatus|failed results are queued", c.posStr(cs.Pos()), "result.err != nil (status written) -> retries.Add(..., result.err)", "commitStatus does not queue a retry for a failed result: the object stays in Error forever")
 	} else {
 		r.anchorMissing("reconciler.(incremental).commitStatus")
@@ -483,6 +509,36 @@ func ruleRetryBook(c *Ctx, r *Reporter) {
 		r.checkP([]string{"C16"}, good, "reconciler.(reconciler).reconcileLoop|progress = what run() processed", c.posStr(rl.Pos()), "progress.update(lastRevision, retryLowWatermark) takes both values from incremental.run", "the progress published to WaitUntilReconciled is not the revision incremental.run actually processed: waiters return before their changes were attempted")
 	} else {
 		r.anchorMissing("reconciler.(reconciler).reconcileLoop")
+	}
+	// the low watermark is published on every update, whatever the revision of the round was
+	// (a round that only processed retries reports revision 0)
+	if up := c.fnByName("reconciler.(progressTracker).update"); up != nil && len(up.Params) == 3 {
+		var cmp ssa.Instruction
+		for _, ia := range allInstrs(up) {
+			bo, ok := ia.In.(*ssa.BinOp)
+			if !ok || (bo.Op != token.NEQ && bo.Op != token.EQL) {
+				continue
+			}
+			_, okx := loadOfField(bo.X, "progressTracker", "retryLowWatermark")
+			_, oky := loadOfField(bo.Y, "progressTracker", "retryLowWatermark")
+			if (okx && bo.Y == ssa.Value(up.Params[2])) || (oky && bo.X == ssa.Value(up.Params[2])) {
+				cmp = bo
+			}
+		}
+		good := false
+		if cmp != nil {
+			good = true
+			// no return reachable from the entry without passing the comparison
+			first := up.Blocks[0].Instrs[0]
+			if first != cmp {
+				if leak := reachesReturnAvoiding(first, func(in ssa.Instruction) bool { return in == cmp }, nil); leak != nil {
+					good = false
+				}
+			}
+		}
+		r.checkP([]string{"C16"}, good, "reconciler.(progressTracker).update|low watermark published regardless of the revision", c.posStr(up.Pos()), "every call compares and stores the retry low watermark", "an update can return without looking at the retry low watermark (e.g. when the round's revision did not advance): after a retry-only round WaitUntilReconciled keeps reporting a stale non-zero watermark")
+	} else {
+		r.anchorMissing("reconciler.(progressTracker).update")
 	}
 }
 
